@@ -150,30 +150,30 @@ Qed.
 End Sound.
 
 (* ------------------------------------------------------------------ symmetry *)
-Theorem symmetric_flat : forall s1 s2,
+Theorem symmetric_flat : forall exact s1 s2,
   eq_wf s1 -> eq_wf s2 -> flat s1 -> flat s2 ->
   forall f f' st r st',
-    are_isomorphic s1 s2 f = Ok (true, st) ->
-    are_isomorphic s2 s1 f' = Ok (r, st') -> r = true.
+    are_isomorphic exact s1 s2 f = Ok (true, st) ->
+    are_isomorphic exact s2 s1 f' = Ok (r, st') -> r = true.
 Proof.
-  intros s1 s2 W1 W2 FL1 FL2 f f' st r st' H12 H21.
-  destruct (iso_sound_inv s1 s2 W1 W2 f st H12) as (HI & Hroot).
+  intros exact s1 s2 W1 W2 FL1 FL2 f f' st r st' H12 H21.
+  destruct (iso_sound_inv s1 s2 W1 W2 exact f st H12) as (HI & Hroot).
   set (R := accept s1 s2 (om st) []).
   assert (Hsim : forall a b, R a b -> sim_ok s1 s2 R a b).
   { intros a b. apply sound_sim; auto. }
-  eapply (complete s2 s1 (fun y x => R x y)); [|exact Hroot|exact H21].
+  eapply (complete exact s2 s1 (fun y x => R x y)); [|exact Hroot|exact H21].
   intros b a HR. apply (sim_sym s1 s2 R Hsim); auto.
 Qed.
 
 (* both directions give the same answer whenever both give one *)
-Theorem check_symmetric_flat : forall s1 s2,
+Theorem check_symmetric_flat : forall exact s1 s2,
   eq_wf s1 -> eq_wf s2 -> flat s1 -> flat s2 ->
   forall f f' b b' st st',
-    are_isomorphic s1 s2 f = Ok (b, st) ->
-    are_isomorphic s2 s1 f' = Ok (b', st') -> b = b'.
+    are_isomorphic exact s1 s2 f = Ok (b, st) ->
+    are_isomorphic exact s2 s1 f' = Ok (b', st') -> b = b'.
 Proof.
-  intros s1 s2 W1 W2 FL1 FL2 f f' b b' st st' H12 H21.
+  intros exact s1 s2 W1 W2 FL1 FL2 f f' b b' st st' H12 H21.
   destruct b, b'; auto.
-  - symmetry. eapply (symmetric_flat s1 s2); eauto.
-  - eapply (symmetric_flat s2 s1); eauto.
+  - symmetry. eapply (symmetric_flat exact s1 s2); eauto.
+  - eapply (symmetric_flat exact s2 s1); eauto.
 Qed.
